@@ -34,6 +34,8 @@ ENTRIES = ['conelp', 'lp', 'socp', 'sdp', 'coneqp', 'qp', 'cpl', 'cp', 'gp', 'op
 # the same entry points with an external back-end (only the Python pre/post-processing is from the working tree): history
 # part only - the conelp options do not apply to them, the isolation clauses (inputs, dictionaries, repeatability) do
 ENTRIES_EXT = ['lp.glpk', 'sdp.dsdp', 'opsolve.glpk']
+# the cone-LP entry points called with caller-owned primalstart / dualstart dictionaries (part of the inputs that must not change)
+ENTRIES_START = ['conelp.st', 'lp.st', 'socp.st', 'sdp.st']
 # cone LPs whose least-squares start is already optimal (zero objective): conelp leaves through its iteration-0 return
 SHORTCUT = ['conelp.sc', 'lp.sc', 'socp.sc', 'sdp.sc']
 
@@ -49,6 +51,8 @@ def _problem(entry, which=0):
         entry, be = entry.split('.')
         if be == 'sc':
             return _shortcut_problem(entry)
+        if be == 'st':
+            return _start_problem(entry, v)
         xkw = {'solver': be}
     if entry in ('conelp', 'lp', 'socp', 'sdp'):
         d = {'conelp': {'l': 1, 'q': [2], 's': [2]}, 'lp': {'l': 3, 'q': [], 's': []}, 'socp': {'l': 1, 'q': [3], 's': []},
@@ -114,6 +118,35 @@ def _problem(entry, which=0):
     return call, [A]
 
 
+def _start_problem(entry, v):
+    """the problem of `entry` with primalstart / dualstart dictionaries owned by the caller; the dictionaries (their key
+    sets included) and the matrices in them belong to the arguments whose image must not change"""
+    from cvxopt import matrix, solvers
+    d = {'conelp': {'l': 1, 'q': [2], 's': [2]}, 'lp': {'l': 3, 'q': [], 's': []}, 'socp': {'l': 1, 'q': [3], 's': []},
+         'sdp': {'l': 1, 'q': [], 's': [2]}}[entry]
+    inst = next(i for i in (solve.planted(d, 2, 1 if entry != 'sdp' else 0, v + k, 'strict') for k in range(8)) if i is not None)
+    a = solve.build_args(inst, {'storage': 'dense'})
+    ps, ds = solve.starts(inst, {'start': 'both'})
+    ml = d['l']
+    G, h = a['G'], a['h']
+    if entry in ('conelp', 'lp'):
+        args = [a['c'], G, h, a['A'], a['b'], ps, ds]
+        if entry == 'conelp':
+            return (lambda o: solvers.conelp(a['c'], G, h, a['dims'], a['A'], a['b'], primalstart=ps, dualstart=ds,
+                                             **({'options': o} if o is not None else {}))), args
+        return (lambda o: solvers.lp(a['c'], G, h, a['A'], a['b'], primalstart=ps, dualstart=ds,
+                                     **({'options': o} if o is not None else {}))), args
+    if entry == 'socp':
+        pss = {'x': ps['x'], 'sl': ps['s'][:ml], 'sq': [ps['s'][ml:]]}
+        dss = {'y': ds['y'], 'zl': ds['z'][:ml], 'zq': [ds['z'][ml:]]}
+        args = [a['c'], G[:ml, :], h[:ml], [G[ml:, :]], [h[ml:]], a['A'], a['b'], pss, dss]
+        return (lambda o: solvers.socp(*args[:7], primalstart=pss, dualstart=dss, **({'options': o} if o is not None else {}))), args
+    pss = {'x': ps['x'], 'sl': ps['s'][:ml], 'ss': [matrix(list(ps['s'][ml:]), (2, 2))]}
+    dss = {'zl': ds['z'][:ml], 'zs': [matrix(list(ds['z'][ml:]), (2, 2))]}
+    args = [a['c'], G[:ml, :], h[:ml], [G[ml:, :]], [matrix(list(h[ml:]), (2, 2))], pss, dss]
+    return (lambda o: solvers.sdp(*args[:5], primalstart=pss, dualstart=dss, **({'options': o} if o is not None else {}))), args
+
+
 def _shortcut_problem(entry):
     """feasibility problems with zero objective: the default starting point (least-squares s, z = 0 shifted into the cone)
     is optimal, so conelp returns from its iteration-0 shortcut; option validation must not depend on that."""
@@ -172,7 +205,7 @@ def cases(tier, seed, flavour):
         yield {'part': 'options', 'entry': e, 'seed': seed}
     for e in ENTRIES:
         yield {'part': 'hist', 'entry': e, 'depth': 3 if tier == 'quick' else 4, 'seed': seed}
-    for e in ENTRIES_EXT:
+    for e in ENTRIES_EXT + ENTRIES_START:
         yield {'part': 'hist', 'entry': e, 'depth': 2 if tier == 'quick' else 3, 'seed': seed}
     for tag, cone in (('ball2.0', None), ('ballo2.0', None), ('ballo1.1', None), ('quad2.0', {'l': 1, 'q': [2], 's': [2]}),
                       ('acent2.0.015625', {'l': 1, 'q': [2], 's': [2]}), ('logdom.0.1', None), ('expc2', None), ('lse.0.cp', None)):
@@ -314,6 +347,9 @@ def _brief(r):
 # ------------------------------------------------------------------------------------------------ part 2
 HIST_OPTSETS = [None, {'show_progress': False, 'maxiters': 3, 'refinement': 0}, {'show_progress': False, 'feastol': 1e-3, 'abstol': 1e-2, 'reltol': 1e-2}]
 HIST_GLOBAL = [('maxiters', 4), ('abstol', 1e-3), ('refinement', 2)]
+# per-call dictionaries that carry parameters for the external back-end (an iteration limit changes the answer)
+HIST_OPTSETS_EXT = [None, {'show_progress': False, 'glpk': {'msg_lev': 'GLP_MSG_OFF', 'it_lim': 1}, 'dsdp': {'DSDP_Monitor': 0, 'DSDP_MaxIts': 2}},
+                    {'show_progress': False, 'glpk': {'msg_lev': 'GLP_MSG_OFF'}, 'dsdp': {'DSDP_Monitor': 0}}]
 
 
 def _fresh_reference(entry, seed, effs):
@@ -339,12 +375,25 @@ def _fresh_reference(entry, seed, effs):
     return out
 
 
+def _ext_options():
+    """the module-level option dictionaries of the external back-ends (cvxopt.glpk.options, cvxopt.dsdp.options)"""
+    out = {}
+    for name in ('glpk', 'dsdp'):
+        try:
+            mod = __import__('cvxopt.' + name, fromlist=['options'])
+            out[name] = repr(sorted(dict(mod.options).items()))
+        except Exception:
+            out[name] = None
+    return out
+
+
 def run_hist(case):
     from cvxopt import solvers, coneprog, cvxprog, misc, modeling
     from mc import cvx
     e = case['entry']
     seed = case['seed']
     mods = [coneprog, cvxprog, misc, solvers, modeling]
+    HIST_OPTSETS = HIST_OPTSETS_EXT if e in ENTRIES_EXT else globals()['HIST_OPTSETS']
 
     def eff_of(glob, oc):
         if oc is not None:
@@ -380,10 +429,12 @@ def run_hist(case):
                 ocd = dict(oc) if oc is not None else None
                 before_args = cvx.image(args)
                 before_glob = dict(solvers.options)
+                before_ext = _ext_options()
                 before_mods = [(m.__name__, tuple(sorted(k for k in m.__dict__ if not k.startswith('__')))) for m in mods]
                 r = _do(call, ocd)
                 obs.append({'ev': ev, 'res': _image(r), 'brief': _brief(r), 'eff': json.dumps(eff_of(before_glob, oc), sort_keys=True),
-                            'args_same': cvx.image(args) == before_args, 'glob_same': dict(solvers.options) == before_glob,
+                            'args_same': cvx.image(args) == before_args,
+                            'glob_same': dict(solvers.options) == before_glob and _ext_options() == before_ext,
                             'percall_same': ocd == (dict(oc) if oc is not None else None),
                             'mods_same': [(m.__name__, tuple(sorted(k for k in m.__dict__ if not k.startswith('__')))) for m in mods] == before_mods})
         return {'glob': dict(solvers.options), 'obs': obs}
